@@ -229,14 +229,8 @@ func (w *World) ghostUpdate(o *CycleObs) {
 // cycleInFlight a whole coordination cycle runs while the first request is being served.
 func (w *World) scrape(i int, cycleInFlight bool) {
 	s := w.shards[i]
-	// the Prometheus of the shard scrapes what the sidecar's update callbacks (config generation) told it
-	var hs []uint64
-	for _, ts := range s.s.Told {
-		for _, t := range ts {
-			hs = append(hs, t.Hash)
-		}
-	}
-	sort.Slice(hs, func(a, b int) bool { return hs[a] < hs[b] })
+	// the Prometheus of the shard scrapes what the generated configuration file lists
+	hs := s.s.PromTargets()
 	for k, h := range hs {
 		if k == 0 && cycleInFlight {
 			w.inflight = func() { w.cycle() }
@@ -255,7 +249,7 @@ func (w *World) scrape(i int, cycleInFlight bool) {
 func (w *World) Enabled(progressOnly bool) []Event {
 	evs := []Event{{Kind: "cycle"}}
 	for i, s := range w.shards {
-		if len(s.s.TM.TargetsInfo().Status) > 0 || len(s.s.Told) > 0 {
+		if len(s.s.TM.TargetsInfo().Status) > 0 || len(s.s.PromTargets()) > 0 {
 			evs = append(evs, Event{Kind: "scrape", I: i})
 		}
 	}
@@ -383,10 +377,8 @@ func (w *World) Key() string {
 		}
 		// what the shard's Prometheus was told (differs from the assignment only through a defect)
 		var told []string
-		for _, ts := range s.s.Told {
-			for _, t := range ts {
-				told = append(told, fmt.Sprint(t.Hash))
-			}
+		for _, h := range s.s.PromTargets() {
+			told = append(told, fmt.Sprint(h))
 		}
 		sort.Strings(told)
 		sb.WriteString(" told:" + strings.Join(told, ","))
